@@ -81,10 +81,10 @@ impl InMemoryParsingSource {
 
 impl ParsingSource for InMemoryParsingSource {
     fn get_contents(&self, path: &Path) -> CoreResult<String> {
-        match self.files.get(path.to_str().unwrap()) {
+        match self.files.get(path.to_string_lossy().as_ref()) {
             Some(data) => Ok(data.to_string()),
             None => Err(Diagnostic::error()
-                .with_message(format!("file not found: '{}'", path.to_str().unwrap()))
+                .with_message(format!("file not found: '{}'", path.to_string_lossy()))
                 .into()),
         }
     }
